@@ -5,3 +5,16 @@ timeout / timeout_thorough (s), module ("root" | "toolsgod"), env, hang_is_viola
 """
 
 PROPS = {}
+
+PROPS["C10"] = dict(
+    level="exploration",
+    assumptions=[
+        "delays >= one interval (shorter delays are outside the statement)",
+        "Drain is followed only by ticks and Stop",
+        "operations after Stop are issued once the wheel's run loop has observed the stop",
+        "race detector run is part of C17 (the wheel has a single owner goroutine; callers only use channels)",
+    ],
+    runs=[
+        dict(pkg="./lib/collection", run="^TestVerifC10", timeout=240, timeout_thorough=3000),
+    ],
+)
